@@ -468,6 +468,19 @@ def gen_c06(rng, sid0, thorough=False):
         add(f"{name}-good", f)
         add(f"{name}-good-bytes", f, chunked=[[x] for x in f])
         add(f"{name}-good-rand", f, chunked=chunk_random(rng, f, maxchunk=5))
+    # damage in the byte-count field of the variable-length requests (the derived length becomes too long, barely
+    # legal, or short), followed by as many re-opens of the port as the RTU server task would make while it works
+    # through what its reader kept; the frames after that must be delimited from their own bytes again
+    for unit in (1, 0x11, 2):
+        for name, pdu in (("wmr", req_wmr(2, [0x1234, 0xFFFF])), ("wmc", req_wmc(7, [True, False, True, True, False, False, True, False, True, True]))):
+            for bc in (0xF7, 0xF8, 0xFB, 0xFF, 0x00, pdu[5] + 1):
+                bad = list(pdu)
+                bad[5] = bc
+                f = rtu(unit, bad)
+                steps = [rx(f)] + [{"op": "reopen"}] * (len(f) + 3)
+                steps += [rx(rtu(1, req_read(3, 40, 2))), rx(rtu(2, req_wsr(3, 9))), rx(rtu(2, req_read(3, 3, 1)))]
+                scs.append(scenario(sid, "rtu", [1, 2], steps, seed=11, tag=f"c06-bytecount-{name}-{bc:#x}-unit{unit}-reopen*"))
+                sid += 1
     return scs
 
 
@@ -723,6 +736,37 @@ def with_decode_variants(rng, scs, sid0, positions=2, all_levels=False):
     return out
 
 
+def at_levels(scs, levels, sid0=0):
+    """the same scripts with the server created at other decode levels (nothing observable may change)"""
+    out = []
+    for sc in scs:
+        for lv in levels:
+            c = dict(sc)
+            c["id"] = sid0 + len(out)
+            c["decode"] = list(lv)
+            c["tag"] = sc["tag"] + f"+dec{list(lv)}"
+            out.append(c)
+    return out
+
+
+def gen_split_with_command(rng, n, sid0=0, framings=("tcp", "rtu"), auth_modes=(None,), tagp="split"):
+    """a command that reaches the session between the reads of one split frame must not disturb its handling"""
+    out = []
+    for framing in framings:
+        for k in range(n):
+            pdu = random_valid_pdu(rng) if rng.random() < 0.7 else req_wmr(3, [1, 2, 3])
+            if framing == "rtu" and not rtu_delimitable(pdu):
+                continue
+            f = frame(framing, 7 + k, 1, pdu)
+            cut = rng.choice([1, 2, 6, 7, 8, len(f) - 1])
+            cut = max(1, min(len(f) - 1, cut))
+            g = frame(framing, 8 + k, 1, readback_of(pdu) or req_read(3, 0, 1))
+            steps = [rx(f[:cut]), {"op": "decode", "level": rng.choice(DECODES)}, rx(f[cut:]), rx(g)]
+            out.append(scenario(sid0 + len(out), framing, [1, 2], steps, seed=rng.randrange(100),
+                                auth=rng.choice(list(auth_modes)), tag=f"{tagp}-command-inside-split-frame@{cut}"))
+    return out
+
+
 # ------------------------------------------------------------------ spec -> impl: the PDU universe enumerated by TLC
 def tlc_pdu_universe(workdir):
     import subprocess
@@ -759,4 +803,146 @@ def gen_universe_scenarios(rng, pdus, sid0=0, per_scenario=150):
             scs.append(scenario(sid0 + len(scs), framing, units, steps, seed=rng.randrange(1000),
                                 holes=[{"u": units[0], "t": 2, "a": 1, "code": 4}, {"u": units[0], "t": 0, "a": 2, "code": 2}],
                                 auth=rng.choice([None, None, {"policy": "hash", "seed": 5, "role": "r"}]), tag="tlc-universe"))
+    return scs
+
+
+# ------------------------------------------------------------------ the RTU server task (port open / re-open loop)
+RTU_TASK_MODULE = "RtuServerTaskTrace.tla"
+RTU_TASK_CFG = "RtuServerTaskTrace.cfg"
+
+
+def rtu_task_scenario(sid, units, steps, retry, port, decode=(0, 0, 0), seed=0, holes=(), tag=""):
+    return {"id": sid, "framing": "rtu", "units": list(units), "decode": list(decode), "seed": seed, "holes": list(holes),
+            "retry": list(retry), "port": port, "steps": steps, "tag": tag}
+
+
+def check_rtu_task(res, scs, workdir, name):
+    by_id = {s["id"]: s for s in scs}
+    os.makedirs(workdir, exist_ok=True)
+    sp = os.path.join(workdir, f"{name}.scripts.ndjson")
+    tp = os.path.join(workdir, f"{name}.trace.ndjson")
+    with open(sp, "w") as f:
+        for s in scs:
+            f.write(json.dumps(s) + "\n")
+    rc, out = vf.sh([vf.harness_bin("e1_rtutask"), sp, tp], timeout=3600)
+    if rc not in (0, 3):
+        raise vf.ToolError(f"e1_rtutask failed rc={rc}:\n{out[-3000:]}")
+    stats, rejs = vf.validate_trace(RTU_TASK_MODULE, RTU_TASK_CFG, tp, workdir)
+    res.add_trace_stats(name, stats, {"harness_exit": rc})
+    res.evaluations += len(scs)
+    for s in scs:
+        res.distinct.add(vf.sha(json.dumps(s["steps"])[:4000] + str(s["units"]) + str(s["retry"])))
+    if rc == 3 and not rejs:
+        raise vf.ToolError("harness watchdog fired but the trace validated")
+    return [(by_id.get(r["scenario_head"].get("id")), r) for r in rejs]
+
+
+def _wait_steps(rng, d, port_state, nxt_ok, noise=True):
+    """wait d ms as (1, d-2, 1) with the state of the port for the next attempt put in place before the last ms"""
+    pre = []
+    nz = []
+    if noise and rng.random() < 0.5:
+        nz = [{"op": "decode", "level": rng.choice(DECODES)}]
+    if d > 2:
+        pre = [{"op": "tick", "d": 1}] + nz + [{"op": "tick", "d": d - 2}]
+    elif d == 2:
+        pre = nz + [{"op": "tick", "d": 1}]
+    else:
+        pre = nz
+    if nxt_ok != port_state[0]:
+        pre.append({"op": "port", "ok": nxt_ok})
+        port_state[0] = nxt_ok
+    return pre + [{"op": "tick", "d": 1}]
+
+
+def gen_rtu_task_c14(rng, thorough=False):
+    scs = []
+    grid = [(1, 1), (1, 8), (10, 15), (100, 250), (100, 800), (1000, 60000), (3, 1000)]
+    patterns = ["FFFFFFFF", "FFFeFFF", "egeg", "FFgeF", "eFeFFFeFF", "gFFg", "rFr"]
+    for rmin, rmax in grid:
+        for pattern in patterns:
+            port = [pattern[0] != "F"]
+            first = port[0]
+            cur = rmin
+            steps = []
+            for k, c in enumerate(pattern):
+                nxt_ok = (pattern[k + 1] != "F") if k + 1 < len(pattern) else port[0]
+                if c == "F":
+                    d = cur
+                    cur = min(2 * cur, rmax)
+                    steps += _wait_steps(rng, d, port, nxt_ok)
+                else:
+                    cur = rmin
+                    p = random_valid_pdu(rng)
+                    steps.append(rx(rtu(1, p)))
+                    if c == "e":
+                        steps.append({"op": "eof"})
+                    elif c == "r":
+                        steps.append({"op": "rerr", "kind": "ConnectionReset"})
+                    else:
+                        steps.append(rx(rtu(1, random_valid_pdu(rng), bad_crc=True)))
+                    if rng.random() < 0.4:
+                        steps.append(rx(rtu(1, req_wsr(5, 5))))      # sent while nobody listens: lost
+                    steps += _wait_steps(rng, rmin, port, nxt_ok)
+            steps.append(rx(rtu(1, req_read(3, 0, 2))))
+            scs.append(rtu_task_scenario(len(scs), [1, 2], steps, (rmin, rmax), first, seed=rng.randrange(1000),
+                                         tag=f"rtutask-c14-{rmin}-{rmax}-{pattern}"))
+    return scs
+
+
+def gen_rtu_task_random(rng, n, sid0=0):
+    scs = []
+    for k in range(n):
+        rmin = rng.choice([1, 10, 100, 1000])
+        rmax = rmin * rng.choice([1, 2, 3, 8])
+        units = rng.choice([[1], [1, 2], [0, 5], [247]])
+        steps = []
+        pdus = []
+        for _ in range(rng.randint(4, 40)):
+            x = rng.random()
+            if x < 0.35:
+                p = random_valid_pdu(rng)
+                pdus.append(p)
+                u = rng.choice(units + [0, 9])
+                f = rtu(u, p)
+                if rng.random() < 0.2:
+                    cut = rng.randrange(1, len(f))
+                    steps += [rx(f[:cut]), rx(f[cut:])]
+                else:
+                    steps.append(rx(f))
+            elif x < 0.42:
+                steps.append(rx(rtu(rng.choice(units), random_valid_pdu(rng), bad_crc=True)))
+            elif x < 0.47:
+                steps.append(rx([rng.randrange(256) for _ in range(rng.choice([1, 2, 5]))]))
+            elif x < 0.55:
+                steps.append({"op": rng.choice(["eof", "rerr"]), "kind": "ConnectionReset"})
+            elif x < 0.65:
+                steps.append({"op": "port", "ok": rng.random() < 0.6})
+            elif x < 0.90:
+                steps.append({"op": "tick", "d": rng.choice([1, 9, rmin - 1 if rmin > 1 else 1, rmin, 2 * rmin, rmax, rmax + 1, 4 * rmax])})
+            elif x < 0.96:
+                steps.append({"op": "decode", "level": rng.choice(DECODES)})
+            elif x < 0.98:
+                steps.append({"op": "shutdown"})
+            else:
+                steps.append({"op": "drop"})
+        scs.append(rtu_task_scenario(sid0 + k, units, steps, (rmin, rmax), rng.random() < 0.6, decode=rng.choice(DECODES),
+                                     seed=rng.randrange(1000), holes=holes_for(rng, units, pdus, density=0.2),
+                                     tag="rtutask-random"))
+    return scs
+
+
+def gen_rtu_task_c06(rng, thorough=False):
+    """the same byte-count damage against the RTU server task: it re-opens the port (keeping its reader) every `min` ms"""
+    scs = []
+    for unit in (1, 0x11):
+        for name, pdu in (("wmr", req_wmr(2, [0x1234, 0xFFFF])), ("wmc", req_wmc(7, [True, False, True, True, False, False, True]))):
+            for bc in (0xF7, 0xF8, 0xFF, 0x00):
+                bad = list(pdu)
+                bad[5] = bc
+                f = rtu(unit, bad)
+                steps = [rx(f)] + [{"op": "tick", "d": 5}] * (len(f) + 3)
+                steps += [rx(rtu(1, req_read(3, 40, 2))), rx(rtu(2, req_wsr(3, 9))), rx(rtu(2, req_read(3, 3, 1)))]
+                scs.append(rtu_task_scenario(len(scs), [1, 2], steps, (5, 40), True, seed=11, decode=rng.choice(DECODES),
+                                             tag=f"rtutask-c06-bytecount-{name}-{bc:#x}-unit{unit}"))
     return scs
